@@ -249,6 +249,34 @@ pub async fn run() {
         frames.push(f);
         sent.push(s);
     }
+    // a performative that cannot fit one frame (only transfers can be continued): as the last
+    // frame of the run. Whatever the transport does with it - refuse it, which is the only sound
+    // answer - what reaches the wire must still be complete frames within the limit
+    let oversize = mfs < 65536 && choice(8) == 0;
+    if oversize {
+        let a = Attach {
+            name: long_string(mfs - 100 + choice(120) as usize),
+            handle: Handle::from(3u32),
+            role: Role::Sender,
+            snd_settle_mode: SenderSettleMode::Mixed,
+            rcv_settle_mode: ReceiverSettleMode::First,
+            source: Some(Box::new(Source::builder().address("q").build())),
+            target: Some(Box::new(Target::builder().address("q").build().into())),
+            unsettled: None,
+            incomplete_unsettled: false,
+            initial_delivery_count: Some(0),
+            max_message_size: None,
+            offered_capabilities: None,
+            desired_capabilities: None,
+            properties: None,
+        };
+        let v = to_v(&a);
+        let fits = 8 + refcodec::encode(&v).len() <= mfs;
+        sim::fault(if fits { "performative-just-within-the-limit" } else { "performative-beyond-max-frame-size" });
+        sent.push(Sent { channel: 0, perf_debug: format!("{:?}", a), expect: v, payload: vec![], is_transfer: false, more: false, empty: false });
+        frames.push(Frame::new(0u16, FrameBody::Attach(a)));
+    }
+    let oversize_fits = oversize && 8 + refcodec::encode(&sent.last().unwrap().expect).len() <= mfs;
     if sent.iter().any(|s| s.is_transfer && s.payload.len() + 60 > mfs) {
         sim::probe("multi-frame-transfer");
     }
@@ -331,9 +359,15 @@ pub async fn run() {
         }
         done2.put(());
     });
+    let nframes = frames.len();
     for (k, f) in frames.into_iter().enumerate() {
         match sim::op(&format!("transport.send frame #{}", k), ta.send(f)).await {
             Some(Ok(())) => {}
+            Some(Err(_)) if oversize && !oversize_fits && k + 1 == nframes => {
+                // refused: nothing of it may be on the wire
+                sim::probe("oversize-performative-refused");
+                sent.pop();
+            }
             Some(Err(e)) => {
                 sim::violation("send-failed", format!("sending frame #{} ({}) failed: {:?}", k, sent[k].perf_debug, e));
                 return;
